@@ -5,9 +5,9 @@ import shutil
 
 from .common import run, offline_env
 
-UB_CLASS = re.compile(r"dereference failure|pointer (NULL|invalid|outside|relation)|out of bounds|"
-                      r"misaligned|deallocated|dead object|object bounds|Undefined Behavior|"
-                      r"offset result and original pointer|unaligned", re.I)
+UB_CLASS = re.compile(r"dereference failure|pointer NULL|pointer invalid|pointer outside object bounds|invalid pointer|"
+                      r"misaligned|deallocated dynamic object|dead object|Undefined Behavior|"
+                      r"offset result and original pointer|memcpy|memmove|memset", re.I)
 
 
 def concrete_playback(ov, harness, timeout_s, mem_gb, stubbing):
